@@ -99,6 +99,11 @@ fn check(e: &Expression, case: &str, rep: &mut Report) {
     rep.evaluations += 1;
     let mut uns = vec![];
     unsupported(e, &mut uns, false);
+    // hand-built option nodes: C13 says an option inside the expression behaves as -true, C12 says an
+    // option the target cannot express is refused - either is accepted
+    let has_global = uns.iter().any(|u| u.0 == "option:Global");
+    let uns_all = uns.clone();
+    uns.retain(|u| u.0 != "option:Global");
     let res = match compile_g(e, &crate::sut::opts_for(crate::rng::hash_str(case)), "/dev/x") {
         Err(p) => {
             let which = uns.first().map(|u| u.0.clone()).unwrap_or_else(|| "supported-tree".into());
@@ -107,6 +112,10 @@ fn check(e: &Expression, case: &str, rep: &mut Report) {
         }
         Ok((r, _, _)) => r,
     };
+    if uns.is_empty() && has_global {
+        rep.count(if res.is_ok() { "option_node_compiled" } else { "option_node_refused" });
+        return;
+    }
     if uns.is_empty() {
         rep.count("supported_trees");
         match res {
@@ -145,7 +154,7 @@ fn check(e: &Expression, case: &str, rep: &mut Report) {
         }
         Err(msg) => {
             let low = msg.to_lowercase();
-            let named = uns.iter().any(|u| u.1.iter().any(|n| low.contains(n)));
+            let named = uns_all.iter().any(|u| u.1.iter().any(|n| low.contains(n)));
             if !named {
                 rep.violation(&format!("C12:not-named:{}", uns[0].0), &format!("refused, but the message does not name the construct ({:?}): {:?}", uns.iter().map(|u| &u.0).collect::<Vec<_>>(), msg), case, J::obj(vec![("tree", J::s(format!("{:?}", e)))]));
             } else {
@@ -224,7 +233,7 @@ pub fn run(ctx: &Ctx, rep: &mut Report) {
     });
     if ctx.only.is_none() {
         let seen = rep.sets.get("constructs_seen").map(|s| s.len()).unwrap_or(0);
-        rep.floor("all 26 unsupported construct kinds seen", seen >= 25);
+        rep.floor("all 25 unsupported construct kinds seen", seen >= 24);
         rep.floor("supported and unsupported trees observed", rep.get("supported_trees") > 100 && rep.get("unsupported_trees") > 100);
     }
 }
